@@ -51,13 +51,13 @@ ASSUMPTIONS = [
     "analogue aspects (glitches between system clock edges, setup/hold in ns) are not modelled",
 ]
 FLOORS = {
-    "quick": {"uart_tx_frames_decoded": 900, "uart_rx_bytes_delivered": 500, "uart_rx_bad_stop_frames": 40, "uart_rx_zero_gap_frames": 150,
+    "quick": {"uart_tx_frames_decoded": 650, "uart_rx_bytes_delivered": 380, "uart_rx_bad_stop_frames": 20, "uart_rx_zero_gap_frames": 90,
               "uart_full_tx_frames": 60, "uart_full_rx_bytes": 60, "n_uart_tx_tuning_words": 8, "n_uart_rx_tuning_words": 8,
-              "n_uart_rx_phase_offsets_16th": 16, "spi_frames": 1500, "spi_clock_edges_checked": 12000, "n_spi_dividers": 12,
-              "n_spi_lengths": 20, "n_spi_start_phases": 50, "spi_slave_frames": 100, "i2c_bits": 3000, "i2c_start_stop_seen": 250,
-              "i2c_bytes_written": 150, "i2c_bytes_read": 80, "timer_cycles_compared": 12000, "timer_zero_events": 800,
-              "timer_one_shots_timed": 80, "timer_value_latches": 200, "watchdog_cycles": 8000, "watchdog_timeouts": 200,
-              "watchdog_saturated_cycles": 1500, "waittimer_runs": 250, "timeline_sequences": 700, "pwm_periods": 500},
+              "n_uart_rx_phase_offsets_16th": 16, "spi_frames": 1000, "spi_clock_edges_checked": 8000, "n_spi_dividers": 12,
+              "n_spi_lengths": 20, "n_spi_start_phases": 50, "spi_slave_frames": 100, "i2c_bits": 2000, "i2c_start_stop_seen": 160,
+              "i2c_bytes_written": 120, "i2c_bytes_read": 60, "timer_cycles_compared": 12000, "timer_zero_events": 1000,
+              "timer_one_shots_timed": 80, "timer_value_latches": 200, "watchdog_cycles": 9000, "watchdog_timeouts": 250,
+              "watchdog_saturated_cycles": 3000, "waittimer_runs": 300, "timeline_sequences": 900, "pwm_periods": 600},
     "thorough": {"uart_tx_frames_decoded": 5000, "uart_rx_bytes_delivered": 5000, "uart_rx_bad_stop_frames": 400, "uart_rx_zero_gap_frames": 1500,
                  "uart_full_tx_frames": 500, "uart_full_rx_bytes": 500, "n_uart_tx_tuning_words": 8, "n_uart_rx_tuning_words": 8,
                  "n_uart_rx_phase_offsets_16th": 16, "spi_frames": 10000, "spi_clock_edges_checked": 100000, "n_spi_dividers": 12,
